@@ -102,6 +102,30 @@ pub enum Mi {
     /// HMAC under the local password, then a covered byte is changed
     Tampered,
     Correct,
+    /// MESSAGE-INTEGRITY attribute of `len` != 20 bytes: the first min(len, 20) bytes of the CORRECT HMAC
+    /// (`correct`) or garbage, padded with junk beyond 20. `std_len`: the HMAC input uses the header length
+    /// of a regular 24-byte attribute; otherwise the length of the attribute as it is really encoded.
+    Shaped { len: u8, correct: bool, std_len: bool },
+    /// a wrong 20-byte MESSAGE-INTEGRITY followed by a correct one (which covers the wrong one)
+    TwoWrongFirst,
+    /// a correct MESSAGE-INTEGRITY followed by a wrong one
+    TwoCorrectFirst,
+    /// correct MESSAGE-INTEGRITY placed before USERNAME and all other attributes
+    BeforeUsername,
+    /// correct MESSAGE-INTEGRITY after USERNAME; PRIORITY / ICE-CONTROL* / USE-CANDIDATE (or SOFTWARE) follow it
+    ThenAttrs,
+}
+
+fn mi_label(mi: Mi) -> String {
+    match mi {
+        Mi::Shaped { len, correct, std_len } => format!(
+            "Shaped({},len={}{})",
+            if correct { "hmac-prefix" } else { "garbage" },
+            len,
+            if correct && !std_len { ",enc-len" } else { "" }
+        ),
+        m => format!("{:?}", m),
+    }
 }
 
 #[derive(Clone, Copy, Debug, PartialEq, Eq, Serialize, Deserialize)]
@@ -166,6 +190,9 @@ pub enum Content {
     /// the anchor's bytes with only USE-CANDIDATE (or, if already there, SOFTWARE) inserted before the
     /// unchanged MESSAGE-INTEGRITY - which no longer covers the content
     PlusUc,
+    /// the anchor's bytes with the MESSAGE-INTEGRITY attribute cut down to the first 0 / 1 / 2 / 4 / 19 bytes
+    /// of its (correct) value
+    MiTruncated,
     /// the anchor's bytes as they are (a retransmission; with `same_txid == false` only the id is replaced)
     Exact,
 }
@@ -253,6 +280,7 @@ enum MiSpec {
     Key(Vec<u8>),
     Raw([u8; 20]),
     KeyThenTamper(Vec<u8>),
+    Shaped { key: Vec<u8>, len: usize, correct: bool, std_len: bool, junk: u32 },
 }
 
 fn push_attr(b: &mut Vec<u8>, typ: u16, v: &[u8]) {
@@ -270,6 +298,12 @@ fn set_len(b: &mut [u8], l: usize) {
 
 /// RFC 5389 section 6 / 15.4 / 15.5 message: header, attributes, then MESSAGE-INTEGRITY and FINGERPRINT.
 fn build_stun(msg_type: u16, txid: &[u8], attrs: &[(u16, Vec<u8>)], mi: MiSpec, fp: Fp) -> Vec<u8> {
+    build_stun_post(msg_type, txid, attrs, mi, &[], fp)
+}
+
+/// As `build_stun`, with attributes `post` placed AFTER MESSAGE-INTEGRITY (and before FINGERPRINT). The HMAC
+/// covers the message up to MESSAGE-INTEGRITY with the length field pointing at its end (RFC 5389 15.4).
+fn build_stun_post(msg_type: u16, txid: &[u8], attrs: &[(u16, Vec<u8>)], mi: MiSpec, post: &[(u16, Vec<u8>)], fp: Fp) -> Vec<u8> {
     let mut b = Vec::with_capacity(160);
     b.extend_from_slice(&msg_type.to_be_bytes());
     b.extend_from_slice(&[0, 0]);
@@ -299,6 +333,21 @@ fn build_stun(msg_type: u16, txid: &[u8], attrs: &[(u16, Vec<u8>)], mi: MiSpec, 
             push_attr(&mut b, A_MI, &h);
             tamper = true;
         }
+        MiSpec::Shaped { key, len, correct, std_len, junk } => {
+            let padded = (len + 3) & !3;
+            let l = b.len() - 20 + 4 + if std_len { 20 } else { padded };
+            set_len(&mut b, l);
+            let h = sw::hmac_sha1(&key, &b);
+            let mut v = Vec::with_capacity(len);
+            for i in 0..len {
+                let filler = (junk.rotate_left(i as u32 * 5) as u8) ^ (i as u8).wrapping_mul(0x3d) ^ 0xa5;
+                v.push(if correct && i < 20 { h[i] } else { filler });
+            }
+            push_attr(&mut b, A_MI, &v);
+        }
+    }
+    for (t, v) in post {
+        push_attr(&mut b, *t, v);
     }
     if tamper {
         b[19] ^= 0x80; // last transaction-id byte: covered by the HMAC
@@ -384,8 +433,17 @@ fn mi_for(mi: Mi, fill: &Fill, c: &Creds) -> MiSpec {
         }),
         Mi::RemotePwd => MiSpec::Key(c.r_pwd.clone().into_bytes()),
         Mi::Tampered => MiSpec::KeyThenTamper(c.l_pwd.clone().into_bytes()),
-        Mi::Correct => MiSpec::Key(c.l_pwd.clone().into_bytes()),
+        Mi::Correct | Mi::TwoWrongFirst | Mi::TwoCorrectFirst | Mi::BeforeUsername | Mi::ThenAttrs => {
+            MiSpec::Key(c.l_pwd.clone().into_bytes())
+        }
+        Mi::Shaped { len, correct, std_len } => {
+            MiSpec::Shaped { key: c.l_pwd.clone().into_bytes(), len: len as usize, correct, std_len, junk: fill.junk }
+        }
     }
+}
+
+fn wrong_mi_value(fill: &Fill) -> Vec<u8> {
+    (0..20u32).map(|i| fill.txid[(i % 12) as usize] ^ (fill.junk.rotate_right(i) as u8) ^ 0x5a).collect()
 }
 
 /// Build the Binding request of `r` against an agent with credentials `c` in role `agent_role`.
@@ -407,7 +465,24 @@ fn build_request(r: &Req, c: &Creds, agent_role: Role) -> Vec<u8> {
     if r.uc {
         attrs.push((A_USE_CANDIDATE, Vec::new()));
     }
-    build_stun(T_BINDING_REQUEST, &r.fill.txid, &attrs, mi_for(r.mi, &r.fill, c), r.fp)
+    let mut post: Vec<(u16, Vec<u8>)> = Vec::new();
+    match r.mi {
+        Mi::TwoWrongFirst => attrs.push((A_MI, wrong_mi_value(&r.fill))),
+        Mi::TwoCorrectFirst => post.push((A_MI, wrong_mi_value(&r.fill))),
+        Mi::BeforeUsername => {
+            let cut = attrs.iter().position(|a| a.0 != A_SOFTWARE).unwrap_or(attrs.len());
+            post = attrs.split_off(cut);
+        }
+        Mi::ThenAttrs => {
+            let cut = attrs.iter().position(|a| a.0 != A_SOFTWARE && a.0 != A_USERNAME).unwrap_or(attrs.len());
+            post = attrs.split_off(cut);
+            if post.is_empty() {
+                post.push((A_SOFTWARE, b"after-integrity".to_vec()));
+            }
+        }
+        _ => {}
+    }
+    build_stun_post(T_BINDING_REQUEST, &r.fill.txid, &attrs, mi_for(r.mi, &r.fill, c), &post, r.fp)
 }
 
 fn build_response(txid: &[u8], error: Option<u16>, mapped: SocketAddr, mi: bool, fp: Fp, c: &Creds) -> Vec<u8> {
@@ -444,24 +519,39 @@ fn genuine_request(txid: [u8; 12], uc: bool, c: &Creds, agent_role: Role) -> Vec
     build_request(&r, c, agent_role)
 }
 
+#[derive(Clone, Copy, Debug, PartialEq, Eq)]
+enum Auth {
+    /// the FIRST MESSAGE-INTEGRITY is a well-formed 20-byte attribute that verifies under the local password over
+    /// the bytes preceding it, and a USERNAME "<local ufrag>:..." precedes it. Attributes after it (a second
+    /// MESSAGE-INTEGRITY, USE-CANDIDATE, ...) do not change that; whether they are honoured is the receiver's business.
+    Valid,
+    /// some well-formed MESSAGE-INTEGRITY of the message verifies over the bytes preceding it and some USERNAME is
+    /// right, but not in the canonical layout (MESSAGE-INTEGRITY before USERNAME; a wrong MESSAGE-INTEGRITY in front
+    /// of the verifying one). RFC 5389 15.4 lets a strict receiver drop these and the sender did know the password:
+    /// either outcome is accepted.
+    Either,
+    Invalid,
+}
+
 /// The oracle's notion of "carries this session's username and a MESSAGE-INTEGRITY computed with the
 /// local password", decided on the bytes of THIS message with the independent reader / HMAC.
+fn verdict(bytes: &[u8], c: &Creds) -> Auth {
+    let Ok(w) = sw::parse_strict(bytes) else { return Auth::Invalid };
+    let right = |a: &sw::Tlv| std::str::from_utf8(&a.value).map(|u| u.starts_with(&format!("{}:", c.l_ufrag))).unwrap_or(false);
+    let verifies =
+        |a: &sw::Tlv| a.value.len() == 20 && sw::expected_integrity(bytes, a.offset, c.l_pwd.as_bytes())[..] == a.value[..];
+    let Some(first_mi) = w.attrs.iter().position(|a| a.typ == A_MI) else { return Auth::Invalid };
+    let first_user_ok = w.attrs[..first_mi].iter().find(|a| a.typ == A_USERNAME).map(right).unwrap_or(false);
+    if first_user_ok && verifies(&w.attrs[first_mi]) {
+        return Auth::Valid;
+    }
+    let any_user = w.attrs.iter().filter(|a| a.typ == A_USERNAME).any(right);
+    let any_mi = w.attrs.iter().filter(|a| a.typ == A_MI).any(verifies);
+    if any_user && any_mi { Auth::Either } else { Auth::Invalid }
+}
+
 fn authenticated(bytes: &[u8], c: &Creds) -> bool {
-    let Ok(w) = sw::parse_strict(bytes) else { return false };
-    let user_ok = w
-        .attrs
-        .iter()
-        .find(|a| a.typ == A_USERNAME)
-        .and_then(|a| std::str::from_utf8(&a.value).ok())
-        .map(|u| u.starts_with(&format!("{}:", c.l_ufrag)))
-        .unwrap_or(false);
-    let mi_ok = w
-        .attrs
-        .iter()
-        .find(|a| a.typ == A_MI)
-        .map(|a| a.value.len() == 20 && sw::expected_integrity(bytes, a.offset, c.l_pwd.as_bytes())[..] == a.value[..])
-        .unwrap_or(false);
-    user_ok && mi_ok
+    verdict(bytes, c) == Auth::Valid
 }
 
 /// Bytes of a forged request derived from the authenticated `anchor` bytes.
@@ -482,7 +572,10 @@ fn forge_bytes(f: &Forge, anchor: &[u8], c: &Creds, agent_role: Role) -> Vec<u8>
     }
     match f.content {
         Content::Forged => {
-            let mi = if f.mi == Mi::Correct || f.mi == Mi::Tampered { Mi::WrongKey } else { f.mi };
+            let mi = match f.mi {
+                Mi::Absent | Mi::Random | Mi::WrongKey | Mi::RemotePwd | Mi::Shaped { .. } => f.mi,
+                _ => Mi::WrongKey,
+            };
             let r = Req {
                 src: Src::Fresh,
                 user: f.user,
@@ -502,6 +595,12 @@ fn forge_bytes(f: &Forge, anchor: &[u8], c: &Creds, agent_role: Role) -> Vec<u8>
             let bit = (f.fill.junk % 160) as usize;
             m[bit / 8] ^= 1 << (bit % 8);
             build_stun(w.msg_type, &t, &head, MiSpec::Raw(m), f.fp)
+        }
+        Content::MiTruncated => {
+            let l = [0usize, 1, 2, 4, 19][(f.fill.junk % 5) as usize];
+            let mut h = head.clone();
+            h.push((A_MI, orig[..l].to_vec()));
+            build_stun(w.msg_type, &t, &h, MiSpec::None, f.fp)
         }
         Content::PlusUc => {
             let mut h = head.clone();
@@ -973,8 +1072,19 @@ fn default_anchor(fill: &Fill) -> Req {
     Req { src: Src::Fresh, user: User::Right, mi: Mi::Correct, uc: false, ice: true, fp: Fp::Valid, fill: f }
 }
 
+fn spec_verdict(r: &Req) -> Auth {
+    if !matches!(r.user, User::Right | User::HalfRight) {
+        return Auth::Invalid;
+    }
+    match r.mi {
+        Mi::Correct | Mi::TwoCorrectFirst | Mi::ThenAttrs => Auth::Valid,
+        Mi::TwoWrongFirst | Mi::BeforeUsername => Auth::Either,
+        _ => Auth::Invalid,
+    }
+}
+
 fn spec_authenticated(r: &Req) -> bool {
-    r.mi == Mi::Correct && matches!(r.user, User::Right | User::HalfRight)
+    spec_verdict(r) == Auth::Valid
 }
 
 /// Flatten a case into wire steps; a forged request always has an authenticated anchor before it.
@@ -1142,11 +1252,16 @@ impl Live {
                 let bytes = build_request(r, &self.creds, self.role);
                 let via = if r.src == Src::Known { Via::Known } else { Via::Fresh };
                 let (delivered, answered, idx) = self.send_request(via, &bytes).await;
-                let authorised = authenticated(&bytes, &self.creds);
-                if authorised && delivered {
+                let v = verdict(&bytes, &self.creds);
+                if v == Auth::Valid && delivered {
                     self.last_auth = Some(AnchorRef { bytes, src: idx });
                 }
-                Sent { delivered, answered, authorised, note: None }
+                Sent {
+                    delivered,
+                    answered,
+                    authorised: v != Auth::Invalid,
+                    note: if v == Auth::Either { Some("authorised:either-layout") } else { None },
+                }
             }
             Step::Forge(f) => {
                 let anchor = match &f.anchor {
@@ -1158,11 +1273,11 @@ impl Live {
                 };
                 let bytes = forge_bytes(f, &anchor.bytes, &self.creds, self.role);
                 let (delivered, answered, idx) = self.send_request(f.from.via(&anchor), &bytes).await;
-                let authorised = authenticated(&bytes, &self.creds);
-                if authorised && delivered {
+                let v = verdict(&bytes, &self.creds);
+                if v == Auth::Valid && delivered {
                     self.last_auth = Some(AnchorRef { bytes, src: idx });
                 }
-                Sent { delivered, answered, authorised, note: None }
+                Sent { delivered, answered, authorised: v != Auth::Invalid, note: None }
             }
             Step::Resp(r) => {
                 let (txid, authorised, note) = self.pick_txid(r);
@@ -1226,18 +1341,18 @@ const SETTLE: Duration = Duration::from_millis(150);
 fn describe(m: &Step) -> String {
     match m {
         Step::Req(r) => format!(
-            "request src={:?} user={:?} mi={:?} use-candidate={} ice-attrs={} fp={:?}",
-            r.src, r.user, r.mi, r.uc, r.ice, r.fp
+            "request src={:?} user={:?} mi={} use-candidate={} ice-attrs={} fp={:?}",
+            r.src, r.user, mi_label(r.mi), r.uc, r.ice, r.fp
         ),
         Step::Resp(r) => format!("response src={:?} error={:?} tx={:?} mi={} fp={:?}", r.src, r.error, r.tx, r.mi, r.fp),
         Step::Forge(f) => format!(
-            "forged request re-using an authenticated one: anchor={} same-txid={} from={:?} content={:?} user={:?} mi={:?} use-candidate={} fp={:?}",
+            "forged request re-using an authenticated one: anchor={} same-txid={} from={:?} content={:?} user={:?} mi={} use-candidate={} fp={:?}",
             match &f.anchor {
                 Anchor::Own(r) => format!("own(src={:?},uc={})", r.src, r.uc),
                 Anchor::Genuine => "genuine-peer".to_string(),
                 Anchor::Last => "last-authenticated".to_string(),
             },
-            f.same_txid, f.from, f.content, f.user, f.mi, f.uc, f.fp
+            f.same_txid, f.from, f.content, f.user, mi_label(f.mi), f.uc, f.fp
         ),
     }
 }
@@ -1299,7 +1414,7 @@ async fn run_case(case: Case, env: Arc<Env>, known: Arc<HashSet<String>>) -> (Ca
             }
             Step::Req(r) => {
                 rec.label(format!("req:user={:?}", r.user));
-                rec.label(format!("req:mi={:?}", r.mi));
+                rec.label(format!("req:mi={}", mi_label(r.mi)));
                 rec.label(format!("req:src={:?}", r.src));
                 rec.label(if r.uc { "req:use-candidate" } else { "req:plain" });
                 if sent.answered {
@@ -1393,6 +1508,17 @@ fn fp_strategy() -> impl Strategy<Value = Fp> {
     prop_oneof![3 => Just(Fp::Valid), 1 => Just(Fp::Invalid), 1 => Just(Fp::Absent)]
 }
 
+fn shaped_strategy() -> impl Strategy<Value = Mi> {
+    (
+        prop_oneof![
+            Just(0u8), Just(1u8), Just(2u8), Just(4u8), Just(19u8), Just(21u8), Just(22u8), Just(23u8), Just(24u8)
+        ],
+        prop::bool::weighted(0.75),
+        any::<bool>(),
+    )
+        .prop_map(|(len, correct, std_len)| Mi::Shaped { len, correct, std_len })
+}
+
 fn req_strategy() -> impl Strategy<Value = Req> {
     (
         src_strategy(),
@@ -1402,7 +1528,9 @@ fn req_strategy() -> impl Strategy<Value = Req> {
         ],
         prop_oneof![
             2 => Just(Mi::Absent), 1 => Just(Mi::Random), 2 => Just(Mi::WrongKey),
-            2 => Just(Mi::RemotePwd), 2 => Just(Mi::Tampered), 2 => Just(Mi::Correct)
+            2 => Just(Mi::RemotePwd), 2 => Just(Mi::Tampered), 2 => Just(Mi::Correct),
+            4 => shaped_strategy(), 1 => Just(Mi::TwoWrongFirst), 1 => Just(Mi::TwoCorrectFirst),
+            1 => Just(Mi::BeforeUsername), 1 => Just(Mi::ThenAttrs)
         ],
         prop::bool::weighted(0.6),
         prop::bool::weighted(0.7),
@@ -1445,13 +1573,16 @@ fn forge_strategy() -> impl Strategy<Value = Forge> {
         prop_oneof![3 => Just(From::Fresh), 3 => Just(From::Anchor), 2 => Just(From::Known)],
         prop_oneof![
             4 => Just(Content::Forged), 2 => Just(Content::MiStripped), 2 => Just(Content::MiCorrupted),
-            2 => Just(Content::PlusUc), 1 => Just(Content::Exact)
+            2 => Just(Content::MiTruncated), 2 => Just(Content::PlusUc), 1 => Just(Content::Exact)
         ],
         prop_oneof![
             2 => Just(User::Absent), 2 => Just(User::Wrong), 1 => Just(User::Swapped),
             1 => Just(User::HalfRight), 3 => Just(User::Right)
         ],
-        prop_oneof![3 => Just(Mi::Absent), 1 => Just(Mi::Random), 2 => Just(Mi::WrongKey), 2 => Just(Mi::RemotePwd)],
+        prop_oneof![
+            3 => Just(Mi::Absent), 1 => Just(Mi::Random), 2 => Just(Mi::WrongKey), 2 => Just(Mi::RemotePwd),
+            3 => shaped_strategy()
+        ],
         prop::bool::weighted(0.8),
         prop::bool::weighted(0.7),
         fp_strategy(),
@@ -1544,6 +1675,8 @@ fn history_requests(fills: &[Fill], round: usize) -> Vec<Case> {
                 (Content::MiStripped, User::Right, Mi::Absent),
                 (Content::MiCorrupted, User::Right, Mi::Random),
                 (Content::PlusUc, User::Right, Mi::Random),
+                (Content::MiTruncated, User::Right, Mi::Random),
+                (Content::Forged, User::Right, Mi::Shaped { len: 1, correct: true, std_len: true }),
             ] {
                 for (same_txid, from) in reuses.iter().copied() {
                     let p = j + si + round;
@@ -1578,6 +1711,48 @@ fn history_requests(fills: &[Fill], round: usize) -> Vec<Case> {
                     j += 1;
                 }
             }
+        }
+    }
+    out
+}
+
+/// MESSAGE-INTEGRITY shapes: every request carries the RIGHT USERNAME and asks for nomination, so the attribute's
+/// shape is the only thing between the sender and the ICE state.
+fn mi_shapes() -> Vec<Mi> {
+    let mut v = Vec::new();
+    for len in [0u8, 1, 2, 4, 19] {
+        v.push(Mi::Shaped { len, correct: true, std_len: true });
+        v.push(Mi::Shaped { len, correct: true, std_len: false });
+        v.push(Mi::Shaped { len, correct: false, std_len: true });
+    }
+    for len in [21u8, 22, 23, 24] {
+        v.push(Mi::Shaped { len, correct: true, std_len: true });
+    }
+    v.push(Mi::Shaped { len: 21, correct: true, std_len: false });
+    v.push(Mi::Shaped { len: 24, correct: true, std_len: false });
+    v.extend([Mi::TwoWrongFirst, Mi::TwoCorrectFirst, Mi::BeforeUsername, Mi::ThenAttrs]);
+    v
+}
+
+/// scenario x MESSAGE-INTEGRITY shape, one message per fresh agent; source / USERNAME half / ICE attrs rotate.
+fn cross_mi_shapes(fills: &[Fill], round: usize) -> Vec<Case> {
+    let mut out = Vec::new();
+    for (si, sc) in scenarios().into_iter().enumerate() {
+        for (j, mi) in mi_shapes().into_iter().enumerate() {
+            let p = j + si + round;
+            let fill = fills[out.len() % fills.len()].clone();
+            out.push(Case {
+                sc,
+                msgs: vec![Msg::Req(Req {
+                    src: if p & 1 == 0 { Src::Fresh } else { Src::Known },
+                    user: if (p / 2) % 4 == 3 { User::HalfRight } else { User::Right },
+                    mi,
+                    uc: true,
+                    ice: (p >> 2) & 1 == 0,
+                    fp: if (p >> 1) & 1 == 0 { Fp::Valid } else { Fp::Absent },
+                    fill,
+                })],
+            });
         }
     }
     out
@@ -1632,7 +1807,9 @@ fn selfcheck(c: &SelfCase, rec: &CaseRec) -> Check {
     let role = if c.controlled { Role::Controlled } else { Role::Controlling };
     let bytes = build_request(&c.req, &creds, role);
     // (a check of the generator, not of the property: never counted as non-trivial)
-    rec.label(format!("selfcheck:mi={:?}", c.req.mi));
+    if !matches!(c.req.mi, Mi::Shaped { .. }) {
+        rec.label(format!("selfcheck:mi={:?}", c.req.mi));
+    }
     let mut m = Message::new();
     if let Err(e) = m.unmarshal_binary(&bytes) {
         return Err(Fail::new("selfcheck-reference-rejects", format!("webrtc-rs stun cannot parse the built request: {e}")));
@@ -1648,10 +1825,12 @@ fn selfcheck(c: &SelfCase, rec: &CaseRec) -> Check {
         want_user
     );
     crate::ensure!(m.contains(ATTR_USE_CANDIDATE) == c.req.uc, "selfcheck-use-candidate", "USE-CANDIDATE presence");
+    // layouts whose FIRST MESSAGE-INTEGRITY is a regular, verifying one
+    let first_mi_good = matches!(c.req.mi, Mi::Correct | Mi::TwoCorrectFirst | Mi::ThenAttrs | Mi::BeforeUsername);
     let ok_local = MessageIntegrity::new_short_term_integrity(creds.l_pwd.clone()).check(&mut m).is_ok();
     let ok_remote = MessageIntegrity::new_short_term_integrity(creds.r_pwd.clone()).check(&mut m).is_ok();
     crate::ensure!(
-        ok_local == (c.req.mi == Mi::Correct),
+        ok_local == first_mi_good,
         "selfcheck-integrity-local",
         "reference says integrity under the local password is {} for {:?}",
         ok_local,
@@ -1678,16 +1857,33 @@ fn selfcheck(c: &SelfCase, rec: &CaseRec) -> Check {
         d
     );
     crate::ensure!(
-        authenticated(&bytes, &creds) == spec_authenticated(&c.req),
+        verdict(&bytes, &creds) == spec_verdict(&c.req),
         "selfcheck-oracle",
-        "byte-level authentication verdict {} disagrees with the generated credentials {:?}/{:?}",
-        authenticated(&bytes, &creds),
+        "byte-level authentication verdict {:?} disagrees with the generated credentials {:?}/{:?}",
+        verdict(&bytes, &creds),
         c.req.user,
         c.req.mi
     );
+    if let Mi::Shaped { len, correct, std_len } = c.req.mi {
+        // the attribute really has that length and - for the prefix shapes - really is a prefix of the HMAC an
+        // implementation would compute for this layout
+        let w = sw::parse_strict(&bytes).map_err(|e| Fail::new("selfcheck-strict", e))?;
+        let a = w.attrs.iter().find(|a| a.typ == A_MI).ok_or_else(|| Fail::new("selfcheck-shape", "no MESSAGE-INTEGRITY"))?;
+        crate::ensure!(a.value.len() == len as usize, "selfcheck-shape", "length {} vs {}", a.value.len(), len);
+        if correct {
+            let mut head = bytes[..a.offset].to_vec();
+            let padded = (len as usize + 3) & !3;
+            let l = a.offset - 20 + 4 + if std_len { 20 } else { padded };
+            head[2..4].copy_from_slice(&(l as u16).to_be_bytes());
+            let h = sw::hmac_sha1(creds.l_pwd.as_bytes(), &head);
+            let n = (len as usize).min(20);
+            crate::ensure!(a.value[..n] == h[..n], "selfcheck-shape", "not a prefix of the HMAC");
+        }
+        rec.label(format!("selfcheck:mi={}", mi_label(c.req.mi)));
+    }
     // a forgery derived from an authenticated request is never authenticated, except the exact retransmission
     if spec_authenticated(&c.req) {
-        for content in [Content::MiStripped, Content::MiCorrupted, Content::PlusUc, Content::Exact] {
+        for content in [Content::MiStripped, Content::MiCorrupted, Content::MiTruncated, Content::PlusUc, Content::Exact] {
             for same_txid in [true, false] {
                 let f = Forge {
                     anchor: Anchor::Last,
@@ -1730,7 +1926,7 @@ fn selfcheck(c: &SelfCase, rec: &CaseRec) -> Check {
     let w = sw::parse_strict(&bytes).map_err(|e| Fail::new("selfcheck-strict", e))?;
     if let Some(a) = w.attrs.iter().find(|a| a.typ == A_MI) {
         let exp = sw::expected_integrity(&bytes, a.offset, creds.l_pwd.as_bytes());
-        crate::ensure!((exp[..] == a.value[..]) == (c.req.mi == Mi::Correct), "selfcheck-own-hmac", "own HMAC recomputation disagrees");
+        crate::ensure!((exp[..] == a.value[..]) == first_mi_good, "selfcheck-own-hmac", "own HMAC recomputation disagrees");
     }
     Ok(())
 }
@@ -1855,8 +2051,9 @@ async fn anchors() -> Result<(Env, Vec<IceTransport>), String> {
 
 pub fn run(ctx: &mut Ctx) {
     ctx.level = "exploration";
-    ctx.rule = "live IceTransport (WebRTC mode, loopback) per case in scenario = socket kind {per-agent UDP, shared UDP mux port, per-agent passive TCP listener, shared passive TCP listener} x role {controlling, controlled} x state {New (gathered; a trickled remote candidate only when a message uses the known source), Checking (remote parameters + one silent remote candidate with an outstanding check), Connected (genuine harness peer: authenticated checks, nomination complete), Pending (same peer, connected but nomination withheld)}; cross-requests: scenario x source {known remote candidate address, fresh socket} x USERNAME {absent, wrong, local-half-only, right} x MESSAGE-INTEGRITY {absent, random, wrong key, remote password, correct} x USE-CANDIDATE, PRIORITY/ICE-CONTROL* presence and FINGERPRINT validity rotating over cells, one message per fresh agent; cross-responses: scenario x source x {success, error 401} x transaction id {random, replay of a completed (answered or timed-out) transaction} x MI, plus responses to outstanding transactions as positive control; history-requests: scenario x anchor {own authenticated plain check from a fresh / from the known address, the genuine peer's last check} x forged nominating request {no credentials, right USERNAME + wrong-key HMAC, anchor bytes with MESSAGE-INTEGRITY stripped, with one HMAC bit flipped, with only USE-CANDIDATE added} x re-use {anchor's transaction id from a fresh socket, anchor's socket with a new id, both, anchor's id from the known address}; sequences: proptest sequences of 1-10 requests / responses / history-dependent forgeries (anchor = own authenticated request sent first, the genuine peer's check, or the last authenticated request of the case; also exact retransmissions as positive control) with random field contents (also swapped username, tampered HMAC, absent FINGERPRINT, error codes). Non-trivial = at least one request lacking valid credentials or one response without outstanding transaction was delivered to the live agent; distinct by case digest (variant x scenario x field contents).".into();
+    ctx.rule = "live IceTransport (WebRTC mode, loopback) per case in scenario = socket kind {per-agent UDP, shared UDP mux port, per-agent passive TCP listener, shared passive TCP listener} x role {controlling, controlled} x state {New (gathered; a trickled remote candidate only when a message uses the known source), Checking (remote parameters + one silent remote candidate with an outstanding check), Connected (genuine harness peer: authenticated checks, nomination complete), Pending (same peer, connected but nomination withheld)}; cross-requests: scenario x source {known remote candidate address, fresh socket} x USERNAME {absent, wrong, local-half-only, right} x MESSAGE-INTEGRITY {absent, random, wrong key, remote password, correct} x USE-CANDIDATE, PRIORITY/ICE-CONTROL* presence and FINGERPRINT validity rotating over cells, one message per fresh agent; cross-responses: scenario x source x {success, error 401} x transaction id {random, replay of a completed (answered or timed-out) transaction} x MI, plus responses to outstanding transactions as positive control; cross-mi-shapes: scenario x MESSAGE-INTEGRITY shape with the right USERNAME and USE-CANDIDATE {attribute of 0/1/2/4/19 bytes = prefix of the correct HMAC (HMAC input with the regular or the really encoded length) or garbage, 21-24 bytes starting with the correct HMAC, wrong+correct and correct+wrong MESSAGE-INTEGRITY pairs, MESSAGE-INTEGRITY before USERNAME, correct MESSAGE-INTEGRITY followed by PRIORITY/ICE-CONTROL*/USE-CANDIDATE}; history-requests: scenario x anchor {own authenticated plain check from a fresh / from the known address, the genuine peer's last check} x forged nominating request {no credentials, right USERNAME + wrong-key HMAC, anchor bytes with MESSAGE-INTEGRITY stripped, with one HMAC bit flipped, with only USE-CANDIDATE added} x re-use {anchor's transaction id from a fresh socket, anchor's socket with a new id, both, anchor's id from the known address}; sequences: proptest sequences of 1-10 requests / responses / history-dependent forgeries (anchor = own authenticated request sent first, the genuine peer's check, or the last authenticated request of the case; also exact retransmissions as positive control) with random field contents (also swapped username, tampered HMAC, absent FINGERPRINT, error codes). Non-trivial = at least one request lacking valid credentials or one response without outstanding transaction was delivered to the live agent; distinct by case digest (variant x scenario x field contents).".into();
     ctx.assumptions = vec![
+        "layouts RFC 5389 leaves to the receiver are not judged (either outcome): the canonical one plus trailing attributes after a verifying first MESSAGE-INTEGRITY (incl. a second, wrong MESSAGE-INTEGRITY) counts as authenticated; MESSAGE-INTEGRITY before USERNAME and a wrong MESSAGE-INTEGRITY in front of a verifying one are accepted either way; any MESSAGE-INTEGRITY attribute that is not exactly 20 bytes is unauthenticated".into(),
         "credentials are judged per message on its own bytes (independent reader + HMAC): valid iff USERNAME starts with '<local ufrag>:' and MESSAGE-INTEGRITY is the RFC 5389 HMAC-SHA1 under the local password over exactly these bytes - whatever was authenticated earlier from that address or under that transaction id; 'local:<other>' with a correct HMAC is treated as authenticated (RFC 8445 7.3 checks only the first half), so it is not judged".into(),
         "observation = state(), remote_candidates(), get_selected_pair(), nomination watch, selected-socket watch, sampled before and >= 150 ms after each message (and >= 40 ms after the agent's answer when one arrives)".into(),
         "answering an unauthenticated request is allowed and not checked; FINGERPRINT validity is varied but the statement attaches no consequence to it".into(),
@@ -1887,7 +2084,7 @@ pub fn run(ctx: &mut Ctx) {
     };
     let env = Arc::new(env);
     let check = checker(env.clone(), known.clone());
-    let conc = 96usize;
+    let conc = 144usize;
 
     let rounds = ctx.scale(1usize, 20usize);
     let fills: Vec<Fill> = ctx.draw("cross-fill", 4096, &fill_strategy()).into_iter().map(|t| {
@@ -1901,6 +2098,7 @@ pub fn run(ctx: &mut Ctx) {
         run_enumerated(ctx, &rt, "cross-requests", cross_requests(&f, round), conc, check.clone());
         run_enumerated(ctx, &rt, "cross-responses", cross_responses(&f), conc, check.clone());
         run_enumerated(ctx, &rt, "history-requests", history_requests(&f, round), conc, check.clone());
+        run_enumerated(ctx, &rt, "cross-mi-shapes", cross_mi_shapes(&f, round), conc, check.clone());
         if ctx.is_replay() {
             break;
         }
